@@ -10,6 +10,7 @@ HeapMsgs == << Msg(1, ChainAll), Msg(2, << Rep("SA"), Rep("KE"), Rep("NONCE") >>
                Msg(5, << Rep("IDi"), Rep("CERT"), Rep("CERTREQ"), Rep("AUTH") >>), Msg(1, << Rep("N"), Rep("D"), Rep("V"), Rep("IDr") >>),
                Msg(2, << [k |-> "SA", props |-> << Prop(0, 0, 255, TC) >>] >>),
                Msg(4, << [k |-> "EAP", eap |-> Aka(2, 3, 1, AkaOfSubset(AkaSettable))], Rep("N") >>),
+               Msg(5, << [k |-> "CP", cft |-> 2, attrs |-> << CA(49153, D(4, 7)), CA(32768, << >>) >>], Rep("V") >>),
                Msg(3, << [k |-> "EAP", eap |-> [code |-> 2, id |-> 8, m |-> "expanded", vid |-> 10415, vtype |-> << 0, 0, 0, 3 >>, data |-> D(9, 73)]],
                          [k |-> "EAP", eap |-> [code |-> 1, id |-> 8, m |-> "identity", data |-> D(3, 74)]],
                          [k |-> "EAP", eap |-> [code |-> 2, id |-> 8, m |-> "nak", data |-> D(2, 75)]],
@@ -20,6 +21,8 @@ RECURSIVE Hash(_)
 Hash(s) == IF Len(s) = 0 THEN Seed ELSE (Hash(Tail(s)) * 7 + Code(Head(s))) % 1009
 MsgOf(s) == HeapMsgs[(Hash(s) % Len(HeapMsgs)) + 1]
 
+\* what a correct decoder returns for the reference encoding of m (equals Norm(m) inside the encodable domain)
+DecMsg(m) == Classify(EncMsg(Norm(m))).v
 HdrOf(m) == [ispi |-> m.ispi, rspi |-> m.rspi, maj |-> m.maj, min |-> m.min, xt |-> m.xt, flags |-> m.flags, mid |-> m.mid]
 
 \* expectations along a history (decoded: has a decode happened yet)
@@ -28,15 +31,17 @@ Steps(s, m, decoded) ==
   IF Len(s) = 0 THEN << >>
   ELSE LET o == Head(s)
            st == CASE o \in {"decode", "unprotect"} ->
-                        Step("heap_decode", "C20", FALSE, [how |-> o], [panic |-> FALSE, err |-> FALSE, msg |-> Norm(m)])
+                        Step("heap_decode", "C20", FALSE, [how |-> o], [panic |-> FALSE, err |-> FALSE, msg |-> DecMsg(m)])
                    [] o = "scribble_in" -> Step("heap_scribble_in", "C20", FALSE, [mode |-> Len(s) % 2], NoCrash)
                    [] o = "encode" -> Step("heap_encode", "C20", FALSE, [x |-> 0],
-                                           [panic |-> FALSE, err |-> FALSE, wire |-> EncMsg(Norm(m)), srcafter |-> Norm(m).payloads, refsout |-> FALSE])
+                                           \* (outside the encodable domain there is no reference encoding, but encoding must still not alter the message)
+                                           IF Encodable(m) THEN [panic |-> FALSE, err |-> FALSE, wire |-> EncMsg(Norm(m)), srcafter |-> Norm(m).payloads, refsout |-> FALSE]
+                                                           ELSE [panic |-> FALSE, srcafter |-> Norm(m).payloads, refsout |-> FALSE])
                    [] o = "scribble_out" -> Step("heap_scribble_out", "C20", FALSE, [x |-> 0], NoCrash)
                    [] o = "protect" -> Step("heap_protect", "C20", FALSE, [suite |-> (Len(s) % 9) + 1, role |-> (Len(s) % 2 = 0)],
                                             [panic |-> FALSE, err |-> FALSE, srchdr |-> HdrOf(m), orig |-> Norm(m).payloads, held |-> Norm(m).payloads, nsk |-> 1])
                    [] OTHER -> Step("heap_observe", "C20", FALSE, [x |-> 0],
-                                    IF decoded THEN [panic |-> FALSE, dmsg |-> Norm(m).payloads, orig |-> Norm(m).payloads, held |-> Norm(m).payloads, srchdr |-> HdrOf(m)]
+                                    IF decoded THEN [panic |-> FALSE, dmsg |-> DecMsg(m).payloads, orig |-> Norm(m).payloads, held |-> Norm(m).payloads, srchdr |-> HdrOf(m)]
                                                ELSE [panic |-> FALSE, orig |-> Norm(m).payloads, held |-> Norm(m).payloads, srchdr |-> HdrOf(m)])
        IN << st >> \o Steps(Tail(s), m, decoded \/ o \in {"decode", "unprotect"})
 
@@ -46,7 +51,7 @@ HeapVector(s) ==
                  \o Steps(s, m, FALSE)
                  \o << Step("heap_observe", "C20", FALSE, [x |-> 0],
                             IF \E i \in 1..Len(s) : s[i] \in {"decode", "unprotect"}
-                              THEN [panic |-> FALSE, dmsg |-> Norm(m).payloads, orig |-> Norm(m).payloads, held |-> Norm(m).payloads, srchdr |-> HdrOf(m)]
+                              THEN [panic |-> FALSE, dmsg |-> DecMsg(m).payloads, orig |-> Norm(m).payloads, held |-> Norm(m).payloads, srchdr |-> HdrOf(m)]
                               ELSE [panic |-> FALSE, orig |-> Norm(m).payloads, held |-> Norm(m).payloads, srchdr |-> HdrOf(m)]) >>)
 
 Init == H!Init
@@ -54,5 +59,5 @@ Next == H!Next
 \* only histories that end the exploration (maximal length) or contain a write are worth a replay
 Interesting == Len(ops) = MaxOps \/ (Len(ops) >= 2 /\ ops[Len(ops)] \in {"scribble_in", "scribble_out", "protect"})
 Emit == Interesting => PrintT(ToJson(HeapVector(ops)))
-Sound == H!DecodedStable /\ H!EncodePure /\ H!EncodeDeterministic /\ H!ProtectFootprint
+Sound == (\A q \in 1..Len(HeapMsgs) : Classify(EncMsg(Norm(HeapMsgs[q]))).class = "value") /\ H!DecodedStable /\ H!EncodePure /\ H!EncodeDeterministic /\ H!ProtectFootprint
 =============================================================================
